@@ -62,6 +62,12 @@ def gen_defn(rng, tier, wraps=None):
     depth = 3 if tier == "quick" else rng.choice([3, 3, 4])
     if wraps is None:
         wraps = rng.random() < 0.5
+    if rng.random() < 0.12:
+        # larger models (7-10 states, 3-4 controls and calibrations) with shallow expressions
+        d = gen.program(rng, n_state=(7, 10), n_control=(2, 4), n_calib=(2, 4), n_sensor=(0, 0), depth=1,
+                        n_shared=(2, 4), dt_names=("dt", "T_s"), wraps=False)
+        d["large"] = True
+        return d
     d = gen.program(rng, n_sensor=(0, 0), depth=depth, cpp_safe=False,
                     dt_names=("dt", "dt", "T_s", "h_step"), wraps=wraps)
     if rng.random() < 0.25:
@@ -118,6 +124,8 @@ def run_unit(unit, ctx):
         R.stats.inc("programs_with_angle_wrap_idioms")
     if defn.get("proactive_simplify"):
         R.stats.inc("programs_with_proactive_simplify")
+    if defn.get("large"):
+        R.stats.inc("large_programs")
     fp = gen.fingerprint(defn)
     R.fps_all.append(fp)
     if gen.nontrivial_program(defn):
